@@ -155,6 +155,14 @@ pub fn linearize(manual: bool, ops: &[Op]) -> Vec<State> {
 /// Everything else is atomic as in `step`. Returns whether some interleaving of whole calls and
 /// micro-steps explains the history.
 pub fn linearize_manual_two_point(ops: &[Op], before: &[u64]) -> bool {
+    linearize_manual_two_point_opt(ops, before, false)
+}
+
+/// As `linearize_manual_two_point`; with `already_set_is_noop` a `set` that finds the flag
+/// already published by another, still draining `set` may return at once without releasing
+/// anybody (the other `set`'s drain releases them later) - what `set()`'s "already set" fast
+/// path does while an earlier `set()` is still between its two steps.
+pub fn linearize_manual_two_point_opt(ops: &[Op], before: &[u64], already_set_is_noop: bool) -> bool {
     let n = ops.len();
     assert!(n <= 62);
     // open sets: (op index, phase 1 = flag published / 2 = snapshot taken, snapshot mask)
@@ -201,6 +209,9 @@ pub fn linearize_manual_two_point(ops: &[Op], before: &[u64]) -> bool {
                 continue;
             }
             if ops[i].kind == OpKind::Set {
+                if already_set_is_noop && st.signal && !open.is_empty() {
+                    stack.push((done | (1u64 << i), open.clone(), st));
+                }
                 let mut o2 = open.clone();
                 o2.push((i as u8, 1, 0));
                 o2.sort_unstable();
